@@ -433,6 +433,11 @@ impl<CS: BbsCiphersuite> PoKSignature<BBSplus<CS>> {
             .checked_sub(1)
             .and_then(|n| n.checked_sub(L))
             .ok_or_else(|| Error::PoKSVerificationError("L is too large".to_owned()))?;
+        if disclosed_indexes.iter().any(|&i| i >= L) {
+            return Err(Error::PoKSVerificationError(
+                "Invalid disclosed indexes".to_owned(),
+            ));
+        }
         if disclosed_commitment_indexes.iter().any(|&j| j >= M) {
             return Err(Error::PoKSVerificationError(
                 "Invalid disclosed commitment indexes".to_owned(),
